@@ -31,7 +31,7 @@ ASSUMPTIONS = ["where OpenFlow 1.0 defines no error (port stats / queue "
                "may appear between replies",
                "flow_mod with an unknown action type is not generated (the "
                "statement lists ports, tables, queues, buffers, commands)"]
-REQUIRED = ["mid_session_hellos", "bounded_table_cases", "barrier_state_probes_with_state_to_see", "requests", "replies_checked", "errors_checked", "no_reply_checked",
+REQUIRED = ["requests_after_an_entry_with_a_vendor_action", "mid_session_hellos", "bounded_table_cases", "barrier_state_probes_with_state_to_see", "requests", "replies_checked", "errors_checked", "no_reply_checked",
             "stats_requests", "batch_compared", "invalid_requests",
             "barrier_probes"]
 TIMEOUT = {"quick": 900, "thorough": 7200}
@@ -100,6 +100,7 @@ def expect (model, req):
     ("reply", name, fn)        one message of that name with xid; fn(msg)->str|None
     ("error", [(type, code)])  one error with xid and one of these codes
     ("either", name, [(t,c)])  one reply of that name or any one error
+    ("error_or_none",)         nothing, or one error with xid
   and applies the request's effect to the model.
   """
   n = req["name"]; d = req["fields"]
@@ -156,8 +157,19 @@ def expect (model, req):
     model.config[d["port_no"]] = (c & ~d["mask"]) | (d["config"] & d["mask"])
     return ("none",)
   if n == "flow_mod":
+    if any(a["type"] == 0xffff and (8 + len(a["body"])) % 8 for a in d["actions"]):
+      # an action whose length is not a multiple of 8: the message is
+      # malformed (BAD_REQUEST/BAD_LEN, or BAD_ACTION/BAD_LEN) and has no effect
+      return ("error", [(1, 6), (2, 1)])
     if d["command"] > 4:
       return ("error", [(3, 4)])               # FLOW_MOD_FAILED / BAD_COMMAND
+    if any(a["type"] == 0xffff for a in d["actions"]) or getattr(model, "tainted", False):
+      # an action of some vendor (any length): whether a switch that does not
+      # know the vendor takes the entry or answers BAD_VENDOR / BAD_LEN is its
+      # own business - from here on the table's contents are not judged any
+      # more, only that every request still gets its one answer
+      model.tainted = True
+      return ("error_or_none",)
     if d["flags"] & OT.FF_EMERG:
       return ("error", [(3, 0), (3, 2), (3, 3), (3, 5)])
     rem, errs = model.table.flow_mod(d, 0)
@@ -177,6 +189,10 @@ def expect (model, req):
     return ("none",)
   if n == "stats_request":
     t = d["type"]
+    if getattr(model, "tainted", False) and t in (1, 2, 3) and \
+       (t == 3 or d["body"]["table_id"] in (0, 0xff)):
+      return ("reply", "stats_reply",
+              lambda m, t=t: None if m["type"] == t else "stats type")
     if t == 0:
       return ("reply", "stats_reply",
               lambda m: None if m["type"] == 0 and isinstance(m["body"], dict)
@@ -363,7 +379,11 @@ def gen_request (rng, xid):
                                    [dict(type=0, port=3, max_len=0)],
                                    [dict(type=0, port=0xfffd, max_len=64)],
                                    [dict(type=0, port=2, max_len=0),
-                                    dict(type=0, port=0xfffb, max_len=0)]]))
+                                    dict(type=0, port=0xfffb, max_len=0)]] +
+                                  ([[dict(type=0, port=2, max_len=0),
+                                     dict(type=0xffff, vendor=rng.choice([0x2320, 0x1234]),
+                                          body=b"\x00\x0a" + b"\0" * rng.choice([2, 6, 10, 14]))]]
+                                   if rng.random() < 0.15 else [])))
   if r < 0.76:
     k = rng.random()
     acts = rng.choice([[dict(type=0, port=2, max_len=0)],
@@ -427,6 +447,13 @@ def run_sequence (case, rep):
   for i in range(n):
     xid = rng.choice(XIDS) if rng.random() < 0.4 else rng.getrandbits(32)
     reqs.append(gen_request(rng, xid))
+    r = reqs[-1]
+    if r["name"] == "flow_mod" and r["fields"]["command"] == 0 and \
+       any(a["type"] == 0xffff for a in r["fields"]["actions"]):
+      # ... and the controller asks what is installed now
+      reqs.append(dict(name="stats_request", fields=dict(
+        xid=rng.getrandbits(32), type=rng.choice([1, 1, 2]), flags=0,
+        body=dict(match=ALLM, table_id=0xff, out_port=0xffff))))
   # --- one by one
   sw = new_switch(case.get("max_entries"))
   model = Model()
@@ -482,6 +509,13 @@ def run_sequence (case, rep):
              "expected nothing or one %s; got %r" % (exp[1], [describe(m) for m in sync]))
         ok = False
       continue
+    if exp[0] == "error_or_none":
+      rep.count("requests_after_an_entry_with_a_vendor_action")
+      if len(sync) > 1 or (sync and (sync[0]["name"] != "error" or sync[0]["xid"] != xid)):
+        fire("%s answered with %s" % (lab, describe(sync[0])),
+             "expected nothing or one error; got %r" % ([describe(m) for m in sync],))
+        ok = False
+      continue
     if exp[0] == "none":
       rep.count("no_reply_checked")
       if sync:
@@ -522,6 +556,7 @@ def run_sequence (case, rep):
         try:
           n_sw = len(sw.switch.table.entries)
           n_model = len(model.table.entries)
+          if getattr(model, "tainted", False): n_model = n_sw
           if n_sw != n_model:
             fire("barrier reply sent before earlier flow_mods took effect",
                  "the table holds %d entries when the reply is out, the "
